@@ -6,6 +6,7 @@
 (* Formulas : [k |-> "cmp", l, op, r]  with op in {"<","<=",">",">=","==","!="}*)
 (*            [k |-> "not", a]                                             *)
 (*            [k |-> "and", args], [k |-> "or", args]                       *)
+(*            [k |-> "chain", t1, o1, t2, o2, t3]   t1 o1 t2 o2 t3           *)
 (* Eval(f, val) is the truth value of f under the valuation val             *)
 (* (a function from variable names to integers).  Two conditions are         *)
 (* equivalent iff they agree on every valuation of the box Box^Vars; the box *)
@@ -52,6 +53,7 @@ Eval(f, val) ==
       [] f.k = "not" -> ~Eval(f.a, val)
       [] f.k = "and" -> \A i \in 1..Len(f.args) : Eval(f.args[i], val)
       [] f.k = "or"  -> \E i \in 1..Len(f.args) : Eval(f.args[i], val)
+      [] f.k = "chain" -> CmpVal(f.o1, TermVal(f.t1, val), TermVal(f.t2, val)) /\ CmpVal(f.o2, TermVal(f.t2, val), TermVal(f.t3, val))
 
 \* valuations in a fixed order: lexicographic in the sorted variable sequence
 BoxSeq == SetToSortSeq(Box, <)
@@ -76,11 +78,16 @@ Negate(f) ==     \* negation pushed inward (De Morgan, reversed comparisons): wh
       [] f.k = "not" -> f.a
       [] f.k = "and" -> Or([i \in 1..Len(f.args) |-> Negate(f.args[i])])
       [] f.k = "or"  -> And([i \in 1..Len(f.args) |-> Negate(f.args[i])])
+      [] f.k = "chain" -> Or(<<Cmp(f.t1, Rev(f.o1), f.t2), Cmp(f.t2, Rev(f.o2), f.t3)>>)     \* NOT the chain of reversed operators
 
 -----------------------------------------------------------------------------
 Terms == {V(x) : x \in Vars} \cup {C(n) : n \in Consts}
 Atoms == {Cmp(l, op, r) : l \in Terms, op \in Ops, r \in Terms} \ {Cmp(l, op, r) : l \in {C(n) : n \in Consts}, op \in Ops, r \in {C(n) : n \in Consts}}
 Lits == Atoms \cup {Not(a) : a \in Atoms}
+Chain(t1, o1, t2, o2, t3) == [k |-> "chain", t1 |-> t1, o1 |-> o1, t2 |-> t2, o2 |-> o2, t3 |-> t3]
+OrdOps == Ops \cap {"<", "<=", ">", ">="}
+Chains == {Chain(C(a), o1, V(x), o2, C(b)) : a \in Consts, b \in Consts, x \in Vars, o1 \in OrdOps, o2 \in OrdOps}
+          \cup {Chain(V(x), o1, V(y), o2, C(b)) : x \in Vars, y \in Vars, b \in Consts, o1 \in OrdOps, o2 \in OrdOps}
 
 Space ==
     (IF "atom" \in Shapes THEN Atoms ELSE {})
@@ -89,6 +96,8 @@ Space ==
     \cup (IF "or2" \in Shapes THEN {Or(<<a, b>>) : a \in Atoms, b \in Atoms} ELSE {})
     \cup (IF "nand2" \in Shapes THEN {Not(And(<<a, b>>)) : a \in Atoms, b \in Atoms} ELSE {})
     \cup (IF "nor2" \in Shapes THEN {Not(Or(<<a, b>>)) : a \in Atoms, b \in Atoms} ELSE {})
+    \cup (IF "chain" \in Shapes THEN Chains \cup {Not(c) : c \in Chains} ELSE {})
+    \cup (IF "chain2" \in Shapes THEN {And(<<c, a>>) : c \in Chains, a \in Atoms} \cup {Or(<<a, c>>) : c \in Chains, a \in Atoms} ELSE {})
     \cup (IF "lit2" \in Shapes THEN {And(<<a, b>>) : a \in Lits, b \in Lits} \cup {Or(<<a, b>>) : a \in Lits, b \in Lits} ELSE {})
     \cup (IF "and3" \in Shapes THEN {And(<<a, b, c>>) : a \in Atoms, b \in Atoms, c \in Atoms} ELSE {})
     \cup (IF "or3" \in Shapes THEN {Or(<<a, b, c>>) : a \in Atoms, b \in Atoms, c \in Atoms} ELSE {})
